@@ -45,6 +45,21 @@ def main(argv):
             return props.PROPS[prop]["custom"](prop, tier, replay)
         run, spec = run_property(prop, tier)
         extra = {}
+        if replay:
+            import json as _json
+            try:
+                want = {v["key"] for v in _json.load(open(replay)).get("violations", [])}
+            except (OSError, ValueError) as ex:
+                print("cannot read replay file %s: %s" % (replay, ex))
+                return 2
+            hit = [f for f in run.findings if f.key in want]
+            for f in hit:
+                print("RULE %s/%s %s: VIOLATION %s\n      key=%s" % (f.family, f.instance, f.where, f.what, f.key))
+            if hit:
+                print("VIOLATION property=%s replay=%s" % (prop, replay))
+                return 1
+            print("replay: none of the %d recorded violation(s) is present on the current tree" % len(want))
+            return 0
         if tier == "thorough":
             # the same rule instances on the other feature configurations
             cfgs = {"default": {"instances": len(run.instances), "findings": len(run.findings)}}
